@@ -1,8 +1,13 @@
 -- root of the proof library: every property file (the driver does not import this)
+import DigModel.Props.C01
 import DigModel.Props.C02
 import DigModel.Props.C03
+import DigModel.Props.C04
 import DigModel.Props.C05
 import DigModel.Props.C07
+import DigModel.Props.C10
+import DigModel.Props.C11
+import DigModel.Props.C12
 import DigModel.Props.C13
 import DigModel.Props.C17
 import DigModel.Props.C20
